@@ -29,6 +29,8 @@ CHECKS = {
    text="After every action of TLC-simulated programs (operators, copies, queries, in-place transformations, aliases) every object not targeted by the call must be bit-identical, the identity structure (aliases, singletons) must equal the model's, and distinct objects must share no Point2D/curve.", ref="6/C08"),
  "C09": dict(tech="TLC heap model with frame words + replay through the exact affine map of each word",
    text="Simulated programs with Transform/BadTransform actions; witnesses and moments are mapped through the exact affine map of the frame word; same-object return, exactness for move/scale on rationals, words reducing to the identity give == shapes.", ref="6/C09"),
+ "C10": dict(tech="TLC heap model with cache/segmentation state + replay of simulated histories with live-vs-deep-copy query batteries and fresh-process reruns",
+   text="After every action of TLC-simulated histories each involved object answers a query battery identically live, on a deep copy and live again; behaviours are re-run in fresh interpreters with other PYTHONHASHSEED values and cold/pre-warmed memo tables and observation logs must coincide.", ref="6/C10"),
  "C19": dict(tech="TLC heap model (MakeRegion) + direct constructors in permuted orders against operator-built objects and the specification record",
    text="For every region with >= 2 boundary curves the direct ConnectedShape/DisjointShape constructions in permuted orders (with Empty entries) are compared with the specification record, with the operator-built object (== both ways), with complements; collapse rules (single member copy, empty list).", ref="6/C19"),
 }
